@@ -97,7 +97,7 @@ def run(tier, seed):
         "evaluations": summary["plot"] + summary["collect"] + summary["mood"] + len(e2e_done),
         "distinct_nontrivial": summary["distinct_nontrivial"],
         "exhaustive": False,
-        "rule": "plot: generated configurations (0-4 actors over 1-2 roles with event/scalar/delta signals; 0-5 members declared member by member or interleaved, with watches of signals / every <role> / computed and built-in variables, measures, only helps, audits, computes, collects, expects; 0-4 acts, optional repeat from) x collected states (hasData per actor / watched variable / auditor, 0-4 mood periods incl. partly or wholly outside the window and rare infinite ends, act starts with 0-3 repetitions and early termination, collected range absent / short / negative start / normal), through the real assemble + plot + subPlots; both scripts and runme.gp parsed strictly into directives. non-trivial = distinct (configuration, state) whose script has at least one lane or one member box. collect: the same configurations (a third with an auditor that has no watches and mentions only t / mood / moodt) with the collected state PRODUCED BY THE REAL COLLECTOR: generated action reports, observations (of watched signals, watched and built-in variables) and audition reports are fed through the real collectActionReport / collectObservation / collectAuditionReport (expandTimeRange included), then the real assemble + plot run; the expected state is derived from the events alone (verdicts count as received data), and every '../csv/...' file the scripts name must be one the collector wrote. mood: random mood-change sequences (incl. unchanged moods, clear, out-of-order time stamps) through the real collectAndAuditMood/checkFinal. e2e (4 plays quick, 12 thorough): plays through the real binary, each with an auditor whose only data are verdicts.",
+        "rule": "plot: generated configurations (0-4 actors over 1-2 roles with event/scalar/delta signals; 0-5 members declared member by member or interleaved, with watches of signals / every <role> / computed and built-in variables, measures, only helps, audits, computes, collects, expects; 0-4 acts, optional repeat from) x collected states (hasData per actor / watched variable / auditor, 0-4 mood periods incl. partly or wholly outside the window and rare infinite ends, act starts with 0-3 repetitions and early termination, collected range absent / short / negative start / normal), through the real assemble + plot + subPlots; both scripts and runme.gp parsed strictly into directives. non-trivial = distinct (configuration, state) whose script has at least one lane or one member box. collect: the same configurations (a third with an auditor that has no watches and mentions only t / mood / moodt) with the collected state PRODUCED BY THE REAL COLLECTOR: generated action reports, observations (of watched signals, watched and built-in variables) and audition reports are fed through the real collectActionReport / collectObservation / collectAuditionReport (expandTimeRange included), then the real assemble + plot run; the expected state is derived from the events alone (verdicts count as received data), and every '../csv/...' file the scripts name must be one the collector wrote. mood: random mood-change sequences (incl. unchanged moods, clear, out-of-order time stamps) through the real collectAndAuditMood/checkFinal, and half as many mood / act histories sent over an unbuffered channel to the real audit() loop, ended by terminate{}, by cancellation of its context or by the stopper quiescing (often while a mood is in force). The collector-produced cases also carry mood changes, a third of them with a tail of nothing but mood changes (the range must contain them). e2e (6 plays quick, 12 thorough): plays through the real binary, each with an auditor whose only data are verdicts; one template ends in a tail of mood changes after the first second, one is fouled with -S while a mood is in force (exit status 1, still plotted: the band of the cut period must be there).",
         "samples": summary["samples"],
         "distribution": dict(summary["stats"], plot_cases=summary["plot"], collect_cases=summary["collect"],
                              collect_cases_with_verdict_only_member=summary["collect_verdict_only_boxes"],
@@ -132,23 +132,30 @@ def run(tier, seed):
         res.violation(sig, "after the real collector processed a generated event history, the script does not show exactly the data received (%s); %d of %d cases fail" %
                       (", ".join(failed) or "see replay", len(vals["Ocollect"]), summary["collect"]),
                       {"kind": "failing-input", "failed_clauses": failed, "n_failing": len(vals["Ocollect"]),
-                       "input": {"cfg": c["Cfg"], "events": c["Events"], "repeat_act": c["RepeatAct"],
+                       "input": {"cfg": c["Cfg"], "events": c.get("Events", []), "repeat_act": c["RepeatAct"],
                                  "mood_periods": c["Data"]["Moods"], "act_changes": c["Data"]["Acts"]},
                        "expected_received": {k: c["Data"][k] for k in ("ActorHas", "VarHas", "AuditHas", "ObsHas")},
                        "observed": {"csv": c.get("CSV"), "MinTime": c["Out"]["MinTime"], "MaxTime": c["Out"]["MaxTime"], "files": c["Out"]["Files"]},
-                       "replay": "cmd.VerifCollectAndPlot(cfg, events, moods, acts, numRepeats) — see harness/c19/main.go runCollectCase; case index %d of seed %d" % (idx, seed)})
+                       "replay": "cmd.VerifCollectAndPlotMoods(cfg, events, moods, acts, numRepeats) — see harness/c19/main.go runCollectCase; case index %d of seed %d" % (idx, seed)})
     miss = [("collect", x) for x in cases["collect"] if x.get("Missing")] + [("e2e", x) for x in e2e_done if x.get("Missing")]
     if miss:
         kind, c = miss[0]
         res.violation("plotted-csv-missing", "the plot script reads csv files the collector did not write: %s (%d cases)" % (", ".join(c["Missing"][:4]), len(miss)),
                       {"kind": "failing-input", "where": kind, "missing": c["Missing"], "csv_written": c.get("CSV"),
                        "input": {"cfg": c["Cfg"], "events": c.get("Events")}, "n_failing": len(miss),
-                       "replay": "cmd.VerifCollectAndPlot(cfg, events, ...) resp. the real binary on cfg; compare the '../csv/...' names in plots/*.gp with the csv directory"})
+                       "replay": "cmd.VerifCollectAndPlotMoods(cfg, events, ...) resp. the real binary on cfg; compare the '../csv/...' names in plots/*.gp with the csv directory"})
+    loop_errs = [m for m in cases["mood"] if m.get("Err")]
+    if loop_errs:
+        res.violation("audit-loop", "the real audit() loop did not process a generated mood / act history: %s" % loop_errs[0]["Err"][:300],
+                      {"kind": "failing-input", "input": loop_errs[0], "n_failing": len(loop_errs),
+                       "replay": "cmd.VerifMoodLoop(events, actNums, final, endBy)"})
     if vals["Omood"]:
         c = cases["mood"][vals["Omood"][0]]
-        res.violation("mood-periods", "the recorded mood periods are not the maximal non-clear stretches of the mood changes",
+        via = (" (through the real audit() loop, ended by %s)" % c["EndBy"]) if c.get("EndBy") else ""
+        res.violation("mood-periods" + ("-loop-" + c["EndBy"] if c.get("EndBy") else ""),
+                      "the recorded mood periods are not the maximal non-clear stretches of the mood changes" + via,
                       {"kind": "failing-input", "input": c, "n_failing": len(vals["Omood"]),
-                       "replay": "cmd.VerifMoodBook(events, final)"})
+                       "replay": "cmd.VerifMoodBook(events, final) resp. cmd.VerifMoodLoop(events, actNums, final, endBy)"})
     if vals["Oe2e"]:
         c = e2e_done[vals["Oe2e"][0]]
         res.violation("e2e-plot", "a play through the real binary wrote a plot script that does not match its csv files / result.js (%s)" % c["Name"],
